@@ -1224,3 +1224,94 @@ Proof.
   destruct (N.eqb f 7); [|reflexivity].
   destruct (aget N.eqb p (g_pd g)) as [d|] eqn:E; [|reflexivity]. apply A in E. pose proof (H7 _ E) as Z. simpl in Z. rewrite Z. reflexivity.
 Qed.
+
+(* ================================================================== *)
+(* 5. today's receiver: the store converges when every retransmission   *)
+(*    runs on to the newest delivered message (last writer wins)        *)
+(* ================================================================== *)
+Definition store_step (st : list ((N * N) * checkpoint)) (q : req) : list ((N * N) * checkpoint) :=
+  match q_act q with
+  | ADelete => adel keyeqb (cp_key (q_cp q)) st
+  | _ => aset keyeqb (cp_key (q_cp q)) (q_cp q) st
+  end.
+
+Lemma store_of_step_today rc q : rc_store (recv_step defective rc q) = store_step (rc_store rc) q.
+Proof. unfold recv_step, store_step. simpl. destruct (q_act q); reflexivity. Qed.
+
+Lemma store_of_run_today qs : forall rc, rc_store (recv_run defective rc qs) = fold_left store_step qs (rc_store rc).
+Proof.
+  induction qs as [|q r IH]; intros rc; [reflexivity|]. rewrite recv_run_cons, IH, store_of_step_today. reflexivity.
+Qed.
+
+Fixpoint last_write (k : N * N) (qs : list req) : option (option checkpoint) :=
+  match qs with
+  | [] => None
+  | q :: r => match last_write k r with
+              | Some x => Some x
+              | None => if keyeqb k (cp_key (q_cp q))
+                        then Some (match q_act q with ADelete => None | _ => Some (q_cp q) end) else None
+              end
+  end.
+
+Lemma aget_store_run k qs : forall st,
+  aget keyeqb k (fold_left store_step qs st) = match last_write k qs with Some r => r | None => aget keyeqb k st end.
+Proof.
+  induction qs as [|q r IH]; intros st; [reflexivity|]. cbn [fold_left last_write]. rewrite IH.
+  destruct (last_write k r); [reflexivity|]. unfold store_step.
+  destruct (q_act q); rewrite ?(aget_aset keyeqb keyeqb_eq), ?(aget_adel keyeqb keyeqb_eq);
+    destruct (keyeqb k (cp_key (q_cp q))); reflexivity.
+Qed.
+
+Lemma last_write_app k l1 l2 :
+  last_write k (l1 ++ l2) = match last_write k l2 with Some x => Some x | None => last_write k l1 end.
+Proof.
+  induction l1 as [|q r IH]; simpl; [destruct (last_write k l2); reflexivity|].
+  rewrite IH. destruct (last_write k l2); reflexivity.
+Qed.
+
+Lemma firstn_split {A} a b (l : list A) : (a <= b)%nat -> firstn b l = firstn a l ++ firstn (b - a) (skipn a l).
+Proof.
+  revert b l; induction a as [|a IH]; intros b l H; simpl; [rewrite Nat.sub_0_r; reflexivity|].
+  destruct b as [|b]; [lia|]. destruct l as [|x r]; simpl; [destruct (b - a)%nat; reflexivity|].
+  f_equal. apply IH. lia.
+Qed.
+
+Lemma skipn_skipn {A} a b (l : list A) : skipn a (skipn b l) = skipn (b + a) l.
+Proof. revert l; induction b as [|b IH]; intros l; simpl; [reflexivity|]. destruct l; [destruct a; reflexivity|apply IH]. Qed.
+
+Lemma runs_last_write reqs m d m' :
+  delivery_runs reqs m d m' ->
+  forall pre, (forall k, last_write k pre = last_write k (firstn m reqs)) ->
+  forall k, last_write k (pre ++ d) = last_write k (firstn m' reqs).
+Proof.
+  induction 1 as [m|m a b d m' Ha Hb Hlen Hd IH]; intros pre Hpre k.
+  - rewrite app_nil_r. apply Hpre.
+  - rewrite app_assoc. apply IH. clear k. intros k.
+    set (run := firstn (b - a) (skipn a reqs)).
+    rewrite (firstn_split a b reqs) by lia. fold run.
+    rewrite !last_write_app. rewrite Hpre.
+    rewrite (firstn_split a m reqs) by lia. rewrite last_write_app.
+    assert (Hrun : run = firstn (m - a) (skipn a reqs) ++ firstn (b - m) (skipn m reqs)).
+    { unfold run. rewrite (firstn_split (m - a) (b - a) (skipn a reqs)) by lia.
+      rewrite skipn_skipn. replace (a + (m - a))%nat with m by lia. replace (b - a - (m - a))%nat with (b - m)%nat by lia.
+      reflexivity. }
+    destruct (last_write k run) as [x|] eqn:E; [reflexivity|].
+    rewrite Hrun, last_write_app in E.
+    destruct (last_write k (firstn (b - m) (skipn m reqs))); [discriminate|]. rewrite E. reflexivity.
+Qed.
+
+Lemma converges_store_today g0 cap g evs d :
+  g <> 0%N -> (forall e, In e evs -> s_srg (fst e) = g) -> (N.of_nat (length evs) < n64)%N ->
+  let reqs := snd (sender_run [(g, (0%N, new_ring cap))] evs) in
+  delivery_runs reqs 0 d (length reqs) ->
+  forall k, aget keyeqb k (rc_store (recv_run defective (mkrecv [] [] g0) d)) =
+            aget keyeqb k (expected_store (live_run evs)).
+Proof.
+  intros Hg Hall Hlt reqs Hd k. unfold reqs in *.
+  destruct (stream_of_sender cap g evs Hg Hall Hlt) as [E _]. rewrite E in Hd.
+  destruct (store_inorder defective g evs 0%N (mkrecv [] [] g0) [] eq_refl eq_refl) as [A _].
+  unfold live_run. fold (live_fold [] evs). rewrite <- A.
+  rewrite !store_of_run_today, !aget_store_run. cbn [rc_store].
+  pose proof (runs_last_write _ _ _ _ Hd [] (fun k' => eq_refl) k) as R. simpl in R.
+  rewrite R, firstn_all. reflexivity.
+Qed.
